@@ -10,7 +10,7 @@ import (
 // RaceBuild reports whether this binary was built with -race.
 const RaceBuild = true
 
-func raceDisable()               { runtime.RaceDisable() }
-func raceEnable()                { runtime.RaceEnable() }
+func raceDisable()                 { runtime.RaceDisable() }
+func raceEnable()                  { runtime.RaceEnable() }
 func raceAcquire(p unsafe.Pointer) { runtime.RaceAcquire(p) }
 func raceRelease(p unsafe.Pointer) { runtime.RaceRelease(p) }
